@@ -430,7 +430,7 @@ Definition qclient_grads (p : list Q) (mc : mclient) : list Q * Q :=
 (* sum over the cohort and the guarded division: the `server_grads` / control variate *)
 Definition sg_q (p : list Q) (clients : list mclient) : list Q :=
   match map (qclient_grads p) clients with
-  | [] => []
+  | [] => vzero (length p)
   | first :: rest =>
       rscale (inv_weight (fold_left Qplus (map snd rest) (snd first))) (fold_left vadd (map fst rest) (fst first))
   end.
@@ -453,16 +453,16 @@ Proof.
   rewrite grads_fold_lift. reflexivity.
 Qed.
 
-Lemma server_grads_lift p (clients : list mclient) : clients <> [] ->
-  server_grads grad split p clients = Some (vlift (sg_q p clients)).
+Lemma server_grads_lift p (clients : list mclient) :
+  server_grads grad split p clients = vlift (sg_q p clients).
 Proof.
-  intros Hne. unfold server_grads, sg_q. destruct clients as [|mc rest]; [congruence|].
+  unfold server_grads, sg_q. destruct clients as [|mc rest]; [apply tree_zeros_like_lift|].
   cbn [map]. rewrite client_grads_lift.
   assert (G : forall a s, fold_left (fun acc x : list NanQ.t * NanQ.t => (tree_add (fst acc) (fst x), NanQ.add (snd acc) (snd x)))
                             (map (client_grads grad split p) rest) (vlift a, Some s)
                           = (vlift (fold_left vadd (map fst (map (qclient_grads p) rest)) a),
                              Some (fold_left Qplus (map snd (map (qclient_grads p) rest)) s))).
-  { clear Hne. induction rest as [|x rest IH]; intros a s; [reflexivity|].
+  { induction rest as [|x rest IH]; intros a s; [reflexivity|].
     cbn [map fold_left]. rewrite client_grads_lift. cbn [fst snd]. rewrite tree_add_lift. cbn [NanQ.add NanQ.lift2]. apply IH. }
   rewrite G. rewrite gen_inverse_weight_spec. reflexivity.
 Qed.
@@ -471,14 +471,14 @@ Definition ml_outputs (step : mstate (S := S) (K := K) -> B -> mstate (S := S) (
   (clients : list mclient) : list (Z * list Q) :=
   map (fun mc => (c_id (fst mc), vsub p (m_params (fold_left step (c_batches (fst mc)) (mkM p s (c_key (fst mc)) p cv))))) clients.
 
-Lemma mime_round_eq step use_cv slr p s (clients : list mclient) : clients <> [] ->
+Lemma mime_round_eq step use_cv slr p s (clients : list mclient) :
   mime_round grad split copt_apply step use_cv slr (p, s) clients =
   Some (map2 (fun a q => a - slr * q) p
           (mean_of p (client_num_examples (map fst clients))
                    (ml_outputs step p s (if use_cv then sg_q p clients else []) clients)),
         fst (copt_apply (sg_q p clients) s p)).
 Proof.
-  intros Hne. unfold mime_round. rewrite (server_grads_lift p clients Hne), unlift_vlift.
+  unfold mime_round. rewrite (server_grads_lift p clients), unlift_vlift.
   fold (ml_outputs step p s (if use_cv then sg_q p clients else []) clients).
   rewrite tree_zeros_like_lift. change (NanQ.of_Q 0) with (Some 0). rewrite apply_fold_lift.
   rewrite gen_inverse_weight_spec, unlift_vlift.
@@ -542,12 +542,12 @@ Proof. revert q; induction a as [|x a IH]; intros [|y q]; cbn; constructor; [ref
 (* C12_mimelite_sgd_lr1_eq_fedavg *)
 Lemma mimelite_sgd_lr1_eq_fedavg p p' s os (clients : list mclient) :
   (forall g o q, length g = length q -> snd (sopt g o q) =v= vsub q g) ->
-  clients <> [] -> NoDup (map c_id (map fst clients)) -> p =v= p' ->
+  NoDup (map c_id (map fst clients)) -> p =v= p' ->
   exists q s1 q' os1 dg,
     mimelite grad split copt_apply 1 (p, s) clients = Some (q, s1) /\
     fedavg (p', os) (map fst clients) = Some (q', os1, dg) /\ q =v= q'.
 Proof.
-  intros Hsrv Hne ND Ep. unfold C12_Model.mimelite. rewrite mime_round_eq by exact Hne.
+  intros Hsrv ND Ep. unfold C12_Model.mimelite. rewrite mime_round_eq.
   assert (W : wf_round gd_init avg_step t_params (length p') p' (map fst clients)).
   { split; [exact ND|split; [reflexivity|]]. apply Forall_forall. intros c _. apply avg_run_client_length. }
   destruct (round_is_weighted_mean gd_init avg_step t_params sopt _ p' os (map fst clients) W) as [g [Eg Hg]].
@@ -590,12 +590,12 @@ Definition one_step_client (mc : mclient) : Prop :=
 
 (* C12_mime_sgd_one_step_is_fullbatch_step *)
 Lemma mime_sgd_one_step slr p s (clients : list mclient) :
-  clients <> [] -> NoDup (map c_id (map fst clients)) -> Forall one_step_client clients ->
+  NoDup (map c_id (map fst clients)) -> Forall one_step_client clients ->
   (0 < total_examples (map fst clients))%Z -> length (sg_q p clients) = length p ->
   exists q s1, mime grad split copt_apply slr (p, s) clients = Some (q, s1) /\
     q =v= vadd p (vscale (- (slr * eta)) (sg_q p clients)).
 Proof.
-  intros Hne ND H1 Hpos Lc. unfold C12_Model.mime. rewrite mime_round_eq by exact Hne.
+  intros ND H1 Hpos Lc. unfold C12_Model.mime. rewrite mime_round_eq.
   do 2 eexists. split; [reflexivity|].
   set (cv := sg_q p clients) in *. set (outs := ml_outputs mime_step p s cv clients).
   assert (D : forall mc, In mc clients ->
@@ -631,7 +631,8 @@ Proof.
     rewrite (num_of_client (map fst clients) (fst mc) ND (in_map fst _ _ I)). apply (D mc I).
   - unfold wtot. rewrite Wn.
     assert (E : qsum (map (fun mc : mclient => inject_Z (c_n (fst mc))) clients) == inject_Z (total_examples (map fst clients))).
-    { unfold total_examples. rewrite <- inject_Z_fold. change (inject_Z 0) with 0. rewrite fold_left_Qplus, !map_map. ring. }
+    { unfold total_examples. rewrite <- inject_Z_fold. change (inject_Z 0) with 0. rewrite fold_left_Qplus, !map_map.
+      rewrite Qplus_0_l. reflexivity. }
     rewrite E. change 0 with (inject_Z 0). rewrite <- Zlt_Qlt. exact Hpos.
 Qed.
 
